@@ -1,5 +1,5 @@
 (** Property C05: -i writes back exactly the edited buffer. *)
-From Vicut Require Import Base.Prelude Model.Format Model.Drivers Proofs.DriverProofs.
+From Vicut Require Import Base.Prelude Model.Format Model.Drivers Proofs.DriverProofs Proofs.BackupProofs.
 
 (** (1) The write loop shared by the [-i] drivers, without [--backup]: every
     named file ends up holding exactly its payload, every other path is
@@ -49,6 +49,23 @@ Theorem C05_twin :
     /\ (do_inplace o = true -> files_emit o [(p, recs)] s = write_back o s p t).
 Proof. intros; now apply single_file_twin. Qed.
 
+(** (5) The same outcome for the write phase in two passes (every backup, then every file), which is what the parallel
+    drivers do since the repair of the vanished-file defect of C06. *)
+Theorem C05_backup_two_phase :
+  forall (o : dopts) (l : list (text * text)) (s : dstate),
+    do_backup o = true ->
+    NoDup (map fst l ++ map (fun pt => backup_path (T "bak") (fst pt)) l) ->
+    (forall p t, In (p, t) l -> fs_get (d_fs s) p <> None) ->
+    exists s', emit_two_phase o l s = (s', Done)
+      /\ d_out s' = d_out s
+      /\ (forall p t, In (p, t) l ->
+            fs_get (d_fs s') p = Some (FText t)
+            /\ fs_get (d_fs s') (backup_path (T "bak") p) = fs_get (d_fs s) p)
+      /\ (forall q, ~ In q (map fst l) ->
+            ~ In q (map (fun pt => backup_path (T "bak") (fst pt)) l) ->
+            fs_get (d_fs s') q = fs_get (d_fs s) q).
+Proof. exact two_phase_backup_spec. Qed.
+
 (** backup names as [Path::with_extension] builds them *)
 Example C05_backup_names :
   backup_path (T "bak") (T "a.txt") = T "a.txt.bak" /\
@@ -61,3 +78,5 @@ Print Assumptions C05_writeback.
 Print Assumptions C05_backup.
 Print Assumptions C05_parallel_is_writeback.
 Print Assumptions C05_twin.
+
+Print Assumptions C05_backup_two_phase.
